@@ -415,6 +415,8 @@ def run(rep: Report, prog: Program, tier: str) -> None:
             for hist_label, self_obj in _histories(all_loops, {"description": _NS(type=typ, media=media), "is_local": False}):
                 ev4 = Evaluator(prog, val_f.module, val_f.cls, {"description": _NS(type=typ, media=media), "self": self_obj, "is_local": False})
                 try:
+                    from .common import run_prelude
+                    run_prelude(ev4, val_f.node, loops[0])
                     ev4.exec_block(loops)
                     rejected = False
                 except Raised as ex:
@@ -528,6 +530,8 @@ def run(rep: Report, prog: Program, tier: str) -> None:
             answer.type = typ
             ev7 = Evaluator(prog, validate.module, validate.cls, {"self": me7, "description": answer, "is_local": is_local}, hk7)
             try:
+                from .common import run_prelude
+                run_prelude(ev7, validate.node, mblock)
                 ev7.exec_stmt(mblock)
                 accepted = True
             except Raised as ex:
@@ -591,7 +595,10 @@ def run(rep: Report, prog: Program, tier: str) -> None:
         me = _NS(__cls__=sld.cls, signalingState=state)
         setattr(me, "__signalingState", state)
         try:
-            Evaluator(prog, sld.module, sld.cls, {"self": me, "sessionDescription": None}, ih).exec_stmt(imp_if)
+            ev_imp = Evaluator(prog, sld.module, sld.cls, {"self": me, "sessionDescription": None}, ih)
+            from .common import run_prelude
+            run_prelude(ev_imp, sld.node, imp_if)
+            ev_imp.exec_stmt(imp_if)
         except Raised as ex:
             rep.fail(mk_finding(prog, PROP, "C14-IMPLICIT", sld, getattr(ex, "node", None), f"implicit setLocalDescription() in {state}: raises {ex.name}", construct=f"implicit description raises {ex.name}"))
             continue
